@@ -58,7 +58,7 @@ def r1_random(ctx, repo):
             detail = "exactly `number` designs, each gen_vector(self.parameters)" if ok else "an iteration does not append exactly one gen_vector(self.parameters)"
         else:
             detail = "the loop %s does not produce exactly `number` designs" % text(lp.iter)
-    ctx.check(ok, "R1", C, where(cls.module, fn), detail)
+    ctx.check3(True if ok else (None if detail == "shape not recognised" else False), "R1", C, where(cls.module, fn), detail, detail, detail)
 
 
 def r2_grid(ctx, repo):
@@ -94,7 +94,7 @@ def r2_grid(ctx, repo):
             detail = "k levels lo + i*(hi-lo)/(k-1), i in [0,k)" if ok_levels else "level %s is not lo + i*(hi-lo)/(k-1)" % text(e)
         else:
             detail = "levels generated over %s, not range(k)" % text(il.iter)
-    ctx.check(ok_levels, "R2", C, where(cls.module, pl), detail, key="levels")
+    ctx.check3(True if ok_levels else (None if detail == "level loop not found" else False), "R2", C, where(cls.module, pl), detail, detail, detail, key="levels")
     # a fresh column list per parameter
     fresh = any(isinstance(s, ast.Expr) and method_call(s.value) and method_call(s.value)[1] == "append" and isinstance(s.value.args[0], ast.List) and not s.value.args[0].elts
                 for s in pl.body)
@@ -215,7 +215,9 @@ def r3_halton(ctx, repo):
         args = [text(a) for a in c[0].args]
         okw = (kw.get("num_points", args[0] if args else None) == "num_samples") and (kw.get("dimension", args[1] if len(args) > 1 else None) == "factor_count")
     sc = any(access_path(c2.func) == "construct_df_from_random_matrix" for c2 in calls_in(bh))
-    ctx.check(okw and sc, "R3", "doe.build_halton", where(doe, bh), "halton(num_samples, number of declared parameters), scaled by the unit-affine map (C08-R3)", key="wiring")
+    wstate = True if (okw and sc) else (False if (c and not okw) else None)
+    ctx.check3(wstate, "R3", "doe.build_halton", where(doe, bh), "halton(num_samples, number of declared parameters), scaled by the unit-affine map (C08-R3)",
+               "halton is not called with (number of samples, number of declared parameters): %s" % (text(c[0]) if c else ""), "wiring not recognised", key="wiring")
     ctx.assume("primality of the sieve _primes_from_2_to and the equivalence recurrence = radical inverse are a theorem/pattern, not re-proved")
 
 
@@ -325,7 +327,9 @@ def r4_lhs(ctx, repo):
     c = [c for c in calls_in(bl) if access_path(c.func) == "lhs"]
     okw = bool(c) and not any(k.arg == "criterion" for k in c[0].keywords) and {k.arg: text(k.value) for k in c[0].keywords}.get("samples") == "num_samples" \
         and {k.arg: text(k.value) for k in c[0].keywords}.get("n") == "factor_count"
-    ctx.check(okd and okw, "R4", "doe.lhs/build_lhs", where(doe, lf), "build_lhs calls lhs(n=#parameters, samples=N) without criterion, which takes the classic construction", key="default-criterion")
+    dstate = True if (okd and okw) else (False if (c and (not okw or not okd)) else None)
+    ctx.check3(dstate, "R4", "doe.lhs/build_lhs", where(doe, lf), "build_lhs calls lhs(n=#parameters, samples=N) without criterion, which takes the classic construction",
+               "the default Latin-hypercube path does not run the classic one-sample-per-stratum construction with (n=#parameters, samples=N)", "wiring not recognised", key="default-criterion")
 
 
 def r5_arity(ctx, repo):
@@ -338,7 +342,9 @@ def r5_arity(ctx, repo):
             and not any(isinstance(s, (ast.If, ast.Continue, ast.Break)) for s in stmts_of(loops[0]))
         c = [c for c in calls_in(fn) if (access_path(c.func) or "") in ("build_lhs", "build_halton")]
         okn = bool(c) and any(k.arg == "num_samples" and text(k.value) == selfn + ".number" for k in c[0].keywords)
-        ctx.check(ok and okn, "R5", "%s.generate" % gname, where(g.module, fn), "one [lo, hi] entry per declared parameter; num_samples = requested number", key="arity")
+        astate = True if (ok and okn) else (False if (c and not okn) else None)
+        ctx.check3(astate, "R5", "%s.generate" % gname, where(g.module, fn), "one [lo, hi] entry per declared parameter; num_samples = requested number",
+                   "the generator does not pass its requested number of samples to the builder (%s)" % (text(c[0]) if c else ""), "generator shape not recognised", key="arity")
 
 
 def run(ctx):
